@@ -21,6 +21,20 @@ def _tag(line, out):
     return t
 
 
+def _form_tag(line, out):
+    """distribution of the dstform area: working directory x kind of spelling x outcome"""
+    cw = dd = ""
+    for w in line.split(" "):
+        if w.startswith("cw:"):
+            cw = "" if w[3:] == "-" else bytes.fromhex(w[3:]).decode("latin1")
+        if w.startswith("dd:"):
+            dd = "" if w[3:] == "-" else bytes.fromhex(w[3:]).decode("latin1")
+    kind = "absolute" if dd.startswith("/") else "relative"
+    clean = dd not in ("", ".") and not dd.endswith("/") and "//" not in dd and "/./" not in dd and \
+        not dd.startswith("./") and not dd.endswith("/.") and ".." not in dd
+    return "dstform:cwd=%s:%s-%s:%s" % (cw or "T", kind, "clean" if clean else "unclean", out.split(" ", 1)[0])
+
+
 def run(ctx):
     ctx.modelled += [
         "the driver executes the RESOLVING model (Model/ExtractR.lean: walk follows symbolic links as the kernel does, "
@@ -102,6 +116,18 @@ def run(ctx):
         "refuses them with ENAMETOOLONG / EINVAL, which the guard turns into an error; the model has no such limits), "
         "sparse tar entries and zip64 sizes (archive/tar cannot write the former, the latter needs 4 GiB payloads)",
     ]
+    ctx.modelled += [
+        "filepath.Abs(dst) is in the model (Ex.absPath; C19.absPath_clean: the root it yields is a clean absolute path "
+        "for EVERY spelling, which discharges the GoodPath/NoDots hypotheses of the other theorems — "
+        "extract_contained_spelled): area dstform hands the extractors the destination as a caller spells it (relative "
+        "to the working directory, `./dst`, `dst/`, `outside/../dst`, `../dst` from beside it, `.`, the empty string and "
+        "`x/..` from inside it, absolute with repeated separators and dots, destinations other than T/dst: a missing "
+        "sub-directory, the sandbox itself, the sibling) with the process standing in T, T/outside or T/dst",
+        "close fault (area closefault, needs strace; skipped and said so without it): the extraction runs in a child "
+        "process under `strace -P <T/dst/path> -e inject=close:error=EIO`, so exactly the close(2) of descriptors of that "
+        "one extracted file fails after its payload was copied completely; model: that entry has short = true with "
+        "its data complete (C19.payload_error_one / payload_error_propagates: an error, the file stays)",
+    ]
     ctx.lean(props=["Props.C19"], drivers=["drv_c19"])
     ctx.harness("./cmd/c19")
     ctx.diff(area="extract", driver="drv_c19", n={"quick": 8000, "thorough": 150000},
@@ -113,5 +139,20 @@ def run(ctx):
              trivial=lambda l, o: " e:" not in l, tagger=lambda l, o: "dstlink:" + o.split(" ", 1)[0],
              timeout=(240 if ctx.tier == "quick" else 900),
              theorem="the resolving model (Ex.walk) follows the destination link; impl != model on this archive")
+    ctx.diff(area="dstform", driver="drv_c19", n={"quick": 900, "thorough": 20000},
+             trivial=lambda l, o: " e:" not in l, tagger=_form_tag, timeout=(240 if ctx.tier == "quick" else 900),
+             theorem="C19.absPath_clean / extract_contained_spelled: the root is Ex.absPath of the working directory and "
+                     "the destination as spelled; impl != model on this archive and spelling")
+    import shutil
+    if shutil.which("strace"):
+        ctx.diff(area="closefault", driver="drv_c19", n={"quick": 100, "thorough": 1500},
+                 trivial=lambda l, o: " e:" not in l, tagger=lambda l, o: "closefault:" + o.split(" ", 1)[0],
+                 timeout=(240 if ctx.tier == "quick" else 900),
+                 theorem="C19.payload_error_one / payload_error_propagates (an entry that cannot be written in full is an "
+                         "error): close(2) of an extracted file failed and impl != model")
+        ctx.extra["closefault"] = "strace -P <file> -e inject=close:error=EIO on a child process"
+    else:
+        ctx.extra["closefault"] = "skipped: strace not found"
+        ctx.assumptions.append("close faults not exercised on this machine (no strace)")
     ctx.impl_oracle("dstlink", {"quick": 200, "thorough": 4000}, label="destination is a symbolic link to a directory",
                     timeout=(240 if ctx.tier == "quick" else 900))
